@@ -1,7 +1,7 @@
 CFG = {
     "group": "c20",
     "level": "proof",
-    "coq_targets": ["Properties/C20.vo"],
+    "coq_targets": ["Properties/C20.vo", 'ParamsTie.vo'],
     "correspondence": "outcome of fst::raw::Fst::new on arbitrary bytes (Format{size} / Version{expected,got} / Ok) and, when it opens, len, is_empty, size, fst_type, as_bytes, the stored checksum, root address (when root() returns) and the result of verify() with payload = FstV.Open.fst_new / verify / accessors",
     "rule": "open <hex>: (1) for every length 0..64: version in {0,1,2,3,4,u64::MAX} x root address in {0,1,len-22..len-16,len,len+1,u64::MAX,u64::MAX-20,u64::MAX-16} x key-count field in {0,1,u64::MAX}, written in both footer layouts, over zero and random filler; (2) random strings of length 0..200 with the version field biased to 0..4 and the root field biased to 0 / near len; (3) built FSTs as they are, every truncation, every position with 4 replacement values, version rewritten to 1 and 2 with and without the last four bytes. All calls under catch_unwind: S = 'total' if open returned and (if Ok) len/is_empty/size/fst_type/as_bytes/verify all returned, else PANIC; M = exact outcome text. The root address is compared only where root().addr() returns (flag R in the case, decided at generation time; decoding the root node of garbage may panic and is not a metadata accessor). Non-trivial = at least 32 bytes (passes the first length check); distinct = distinct case lines.",
     "modelled": [
